@@ -45,6 +45,11 @@ def check(ctx):
 
     C08.extractor_kinds(ctx, model.module("dask/core.py").func("keys_in_tasks"))
     C08.converter_only_kinds(ctx, model)
+    # ---------------- nested_get mirrors the request level by level (no look-ahead on the first element)
+    ng = mod.func("nested_get")
+    rs = returns(ng)
+    ok = len(rs) == 2 and {unparse(r.value) for r in rs} == {"tuple((nested_get(i, coll) for i in ind))", "coll[ind]"}
+    ctx.ob("SIB.nested-get.shape", ng, "nested_get: list -> tuple of nested_get of every element; anything else -> lookup", ok, "" if ok else "a shortcut decides from the first element only: requests that mix keys and sub-lists at one level fail or lose their nesting")
 
 
 def _get_async_calls(func):
